@@ -515,4 +515,26 @@ example : (⟨fun s => some s, id⟩ : Codec).Faithful (fun s => (0 : UInt8) ∉
     simp only [List.mem_replicate] at hs
     cases hs.2
 
+/-- All hypotheses of the composed theorems together, the size limit included, hold of a concrete
+binary (one short record with a name) over the identity codec; the image size is evaluated in the
+kernel. -/
+example :
+    let c : Codec := ⟨fun s => some s, id⟩
+    let D : Str → Prop := fun s => (0 : UInt8) ∉ s
+    let v : AssetBinary := ⟨7, [⟨some (bs ['n']), List.replicate 33 none, List.replicate 18 (false, zero4)⟩]⟩
+    c.Faithful D ∧ WF v ∧ Compose.AssetStrsIn D v ∧
+      ∀ a, build v = .ok a → Ser.imageSize c a < 2 ^ 32 := by
+  refine ⟨fun s hs => ⟨s, rfl, hs, rfl⟩, ⟨by decide +kernel, by decide +kernel⟩, ?_, ?_⟩
+  · intro spec hspec
+    simp only [List.mem_singleton] at hspec
+    subst hspec
+    refine ⟨fun s hs => (by cases hs; decide), fun s hs => ?_⟩
+    simp only [List.mem_replicate] at hs; cases hs.2
+  · intro a ha
+    have h : (match build ⟨7, [⟨some (bs ['n']), List.replicate 33 none, List.replicate 18 (false, zero4)⟩]⟩ with
+        | .ok a => decide (Ser.imageSize ⟨fun s => some s, id⟩ a < 2 ^ 32)
+        | _ => false) = true := by decide +kernel
+    rw [ha] at h
+    simpa using h
+
 end Mila.Props.C18
